@@ -262,6 +262,40 @@ fn install_forms(r: &mut Rep) {
             }
         }
     }
+    // the caller's own items may carry the names the macro family uses internally for ITS items (`IDX`, `handler`): inside the
+    // argument expressions they still mean the caller's items, in all three forms of the macro
+    {
+        #[allow(dead_code)]
+        const IDX: u8 = 1;
+        fn handler(_f: InterruptStackFrame, _i: u8, _e: Option<u64>) {}
+        fn table_of(tabs: &mut [InterruptDescriptorTable], i: u8) -> &mut InterruptDescriptorTable {
+            &mut tabs[i as usize]
+        }
+        for form in 0..3u8 {
+            r.ev(true);
+            let mut tabs: Vec<InterruptDescriptorTable> = (0..4).map(|_| InterruptDescriptorTable::new()).collect();
+            let res = catch(std::panic::AssertUnwindSafe(|| match form {
+                0 => set_general_handler!(table_of(&mut tabs, IDX), handler, (IDX + 39)..=(IDX + 41)),
+                1 => set_general_handler!(table_of(&mut tabs, IDX), handler),
+                _ => set_general_handler!(table_of(&mut tabs, IDX), handler, 3),
+            }));
+            let case = format!("installnames {}", form);
+            if res.is_err() {
+                r.viol("C13|install|panics-when-the-caller-has-items-named-like-the-macro's-own", &case, "");
+            }
+            for (ti, t) in tabs.iter().enumerate() {
+                let b = table_bytes(t);
+                for v in 0..=255u8 {
+                    let g = decode_gate(b[16 * v as usize..16 * v as usize + 16].try_into().unwrap());
+                    let want = ti == 1 && !RESERVED_VECTORS.contains(&v) && match form { 0 => (40..=42).contains(&v), 1 => true, _ => v == 3 };
+                    if g.p != want {
+                        r.viol("C13|install|argument-expression-naming-a-caller-item-resolves-to-an-item-of-the-macro-(wrong-table-or-vectors)", &case, &format!("table {} vector {} present {}", ti, v, g.p));
+                        break;
+                    }
+                }
+            }
+        }
+    }
 }
 
 // ------------------------------------------------------------------ (b) native entry
@@ -529,7 +563,7 @@ pub fn run(a: &Args) {
             "iretq" => crate::c13iret::run(&mut r, a),
             "entryframe" => { crate::simcpu::init(); crate::c13iret::entry_frames(&mut r, &Args { prop: "C13".into(), tier: "thorough".into(), shard: 0, nshards: 1, replay: None, extra: vec![] }) }
             "highgate" => high_half_gates(&mut r),
-            "installonce" => install_forms(&mut r),
+            "installonce" | "installnames" => install_forms(&mut r),
             "installcs" => install_under_changing_cs(&mut r),
             "installempty" => install_empty(&mut r, t[1].parse().unwrap(), t[2].parse().unwrap(), t[3].parse().unwrap(), t[4] == "true"),
             _ => install_forms(&mut r),
